@@ -175,6 +175,8 @@ def attribute(diag, g, gen_file):
             if lab:
                 callee = "pre:" + re.sub(r"\s+", " ", lab[0]["text"])[:80]
         name = "call-requires[%s]" % callee
+        if fn in g.fns and g.fns[fn].get("safety") and (callee.startswith("std:") or callee.startswith("pre:") or callee == "callee"):
+            props = list(g.fns[fn]["safety"])
         # precondition failures at a call site belong to the *caller*
         for s in prim:
             i = info(s["line"])
@@ -194,6 +196,8 @@ def attribute(diag, g, gen_file):
     elif kind is not None:
         txt = re.sub(r"\s+", " ", detail.get("text", ""))[:60]
         name = "%s[%s]" % (kind, txt)
+        if kind in ("arith", "bounds", "unreachable", "decreases") and fn in g.fns and g.fns[fn].get("safety"):
+            props = list(g.fns[fn]["safety"])
     else:
         name = cls
     if fn is None and site is not None and site[1].get("kind") == "spec":
